@@ -31,21 +31,36 @@ PROJECTIONS = {
     'all-but-same': first_and('sent', 'nrx', 't', 'calls'),
 }
 
-NONTRIVIAL_RULE = ('the real code produced something beyond the empty answer: a packet, a counted frame, a returned frame, '
-                   'a retransmission, a decoded non-zero field, an exception — per component, see harness/plan.py')
+NONTRIVIAL_RULE = ('the real code did something beyond the empty answer: delivered a packet or counted a frame (ubx, nmea, scan), returned a frame '
+                   'or retransmitted (srv, seq, level), decoded / encoded / rendered without an exception (fields, assign, key, valset, helper, render), '
+                   'changed a block (gnss), reported success or selected a device (tty, gpsdtx, gpsd); frame and ck cases always serialise / sum bytes '
+                   '— see nontrivial() in harness/plan.py')
 
 
 def nontrivial(case):
-    out, comp = case.get('real') or '', case['component']
+    """did the real code do something beyond the empty answer on this case? (per component; counted for the evidence)"""
+    out, comp, line = case.get('real') or '', case['component'], case.get('line', '')
     if comp == 'ubx':
         return '/' in out or 'crc' in out or 'rx=0' not in out
     if comp == 'nmea':
         return out != 'rx=0'
     if comp in ('srv', 'seq', 'level'):
+        if line.startswith(('levelubx', 'levelnmea')):
+            return 'rx=0' not in out
         return not out.startswith('none sent=1 ') and not out.startswith('none sent=0 ')
     if comp == 'scan':
         return out.startswith('true') or 'reads=0' not in out
-    return True
+    if comp in ('fields', 'key', 'valset', 'helper', 'render'):
+        return not out.startswith('EXC')            # something was decoded / encoded / rendered
+    if comp == 'assign':
+        return out.startswith('pack=') and 'EXC' not in out
+    if comp == 'gnss':
+        return out != line.split('|')[3] if line.count('|') >= 3 else True      # the helper changed a block
+    if comp in ('tty', 'gpsdtx'):
+        return 'true' in out or 'selected=' in out
+    if comp == 'gpsd':
+        return ',true' in out                        # a device was selected
+    return True                                      # frame, ck: every case serialises / sums real bytes
 
 
 PARSER_TRUST = ['the real parser is driven through process()/packet()/set_filter(s)/restart()/empty_queue() and frames_rx only']
